@@ -252,6 +252,9 @@ def shards(tier, seed):  # pylint: disable=unused-argument,too-many-locals
     for base_idx, (suites, ext) in enumerate((([0x1301, 0xc02f, 0x009c], True), ([0x1301], False))):
         for pos in range(len(suites)):
             lows = all_lows if thorough else sorted(set(interesting[:3] + [all_lows[(seed + pos) % len(all_lows)]]))
+            if thorough and (base_idx, pos) != (0, 0):
+                # the whole code space at one position; at the others the assigned / GREASE / SCSV ranges and 12 more
+                lows = sorted(set(interesting + [all_lows[(seed * 7 + pos * 13 + k * 11) % len(all_lows)] for k in range(12)]))
             if not thorough and pos == 1:
                 continue
             if not thorough and base_idx == 1:
